@@ -32,7 +32,7 @@ LEVEL_TEXT = (
     'image; the number of collected points, their norms and the multiset of points (each the inverse-operation '
     'image of its source) are compared with an independent computation; supercell folding is checked on the same scenarios.'
 )
-LEVEL_NOTE = 'Trusted: the operation matrices of pymatgen\'s SpaceGroup table (data), own affine arithmetic and gvmc/ref/geom.py. Pairs within 1e-7 A of the radius are a tie zone (count may differ by them).'
+LEVEL_NOTE = 'Trusted: the operation matrices of pymatgen\'s SpaceGroup table (data), own affine arithmetic and gvmc/ref/geom.py. Pairs within 1e-10 A of the radius are a tie zone (count may differ by them).'
 TECHNIQUE = 'bounded-exhaustive input-shape enumeration against an independent symmetry/minimum-image computation'
 ASSUMPTIONS = ['radius below half the smallest perpendicular width of the cell']
 
@@ -49,7 +49,7 @@ DIRS14 = [np.array(v, dtype=float) / np.linalg.norm(v) for v in
           [(1, 0, 0), (-1, 0, 0), (0, 1, 0), (0, -1, 0), (0, 0, 1), (0, 0, -1), (1, 1, 1), (-1, 1, 1), (1, -1, 1), (1, 1, -1), (-1, -1, 1), (-1, 1, -1), (1, -1, -1), (-1, -1, -1)]]
 RHOS = [0.5, 0.98, 1.02]
 SUPERCELLS = [(1, 1, 1), (2, 1, 1), (2, 2, 2), (1, 2, 3)]
-TIE = 1e-7
+TIE = 1e-10
 
 
 def site_grid(tier):
@@ -128,6 +128,9 @@ def build_positions(site, ops, M, radius):
         for u in DIRS14:
             for rho in RHOS:
                 pts.append((c + rho * radius * u) @ Minv)
+        for u in DIRS14[6:10]:
+            for eps in (-4e-9, 4e-9):  # just inside / just outside the sphere: 'below the radius' is sharp (tie zone 1e-10 A)
+                pts.append((c + (radius + eps) * u) @ Minv)
     bg = [((i + 0.37) / 4, (j + 0.61) / 4, (k + 0.13) / 4) for i in range(4) for j in range(4) for k in range(4)]
     pts = np.array(pts + bg)
     pts = np.mod(pts, 1)
